@@ -127,6 +127,8 @@ class Part:
         exhaustive=None,
         describe='',
         state_machine=None,
+        fuzz_of=None,
+        fuzz_runs=0,
     ):
         self.name = name
         self.check = check
@@ -137,3 +139,7 @@ class Part:
         self.exhaustive = exhaustive or {'quick': False, 'thorough': False}
         self.describe = describe
         self.state_machine = state_machine
+        # coverage-guided campaign (atheris) over the strategy and oracle of
+        # another part; runs per shard in the thorough tier
+        self.fuzz_of = fuzz_of
+        self.fuzz_runs = fuzz_runs
